@@ -145,6 +145,7 @@ func terminates(s ast.Stmt) bool {
 // parseBody recognises a sequence of primitives followed by a terminator.
 // atEOF: falling off the end means "continue to _out" (normal return).
 func (x *extractor) parseBody(stmts []ast.Stmt, key string, atEOF bool) *action {
+	x.lastSetErr = ""
 	a := &action{}
 	es := errNil
 	i := 0
@@ -175,7 +176,7 @@ func (x *extractor) parseBody(stmts []ast.Stmt, key string, atEOF bool) *action 
 			name := s.Label.Name
 			switch {
 			case name == "st0":
-				a.term = lts.Term{Kind: lts.Exit, OK: es == errNil, Delta: 0, Err: "err variable"}
+				a.term = lts.Term{Kind: lts.Exit, OK: es == errNil, Delta: 0, Err: x.errVarName(es == errNil)}
 				return a
 			case reSt.MatchString(name):
 				if es != errNil {
@@ -238,7 +239,7 @@ func (x *extractor) parseBody(stmts []ast.Stmt, key string, atEOF bool) *action 
 	}
 	if atEOF {
 		// falls out of the switch to _out: returns with err as it is
-		a.term = lts.Term{Kind: lts.Exit, OK: es == errNil, Err: "err variable"}
+		a.term = lts.Term{Kind: lts.Exit, OK: es == errNil, Err: x.errVarName(es == errNil)}
 		return a
 	}
 	// fell off the action into the following label: treat as goto that label
@@ -293,7 +294,7 @@ func (x *extractor) parseBreak(b *ast.BlockStmt) (lts.Term, bool) {
 	if !isGoto(b.List[2], "_out") {
 		return lts.Term{}, false
 	}
-	return lts.Term{Kind: lts.Exit, OK: false, Err: "err variable"}, true
+	return lts.Term{Kind: lts.Exit, OK: false, Err: x.errVarName(false)}, true
 }
 
 // parseFRet: { top--; cs = stack[top]; goto _again }
@@ -490,7 +491,16 @@ func (x *extractor) isBuiltin(f ast.Expr, name string) bool {
 }
 
 // isSetErr: err = <package-level error variable>
-func (x *extractor) isSetErr(s ast.Stmt) (string, bool) {
+func (x *extractor) isSetErr(s ast.Stmt) (name string, ok bool) {
+	defer func() {
+		if ok {
+			x.lastSetErr = name
+		}
+	}()
+	return x.isSetErr1(s)
+}
+
+func (x *extractor) isSetErr1(s ast.Stmt) (string, bool) {
 	as, ok := s.(*ast.AssignStmt)
 	if !ok || as.Tok != token.ASSIGN || len(as.Lhs) != 1 || len(as.Rhs) != 1 {
 		return "", false
@@ -1067,4 +1077,14 @@ func (x *extractor) unsafeIndex(stmt ast.Stmt, atEOF bool) ast.Node {
 		return true
 	})
 	return bad
+}
+
+
+// errVarName: what the error variable holds at an exit that returns it: the sentinel (or constructor call) assigned
+// last in this action, when there was one.
+func (x *extractor) errVarName(ok bool) string {
+	if !ok && x.lastSetErr != "" {
+		return "err variable = " + x.lastSetErr
+	}
+	return "err variable"
 }
